@@ -22,12 +22,26 @@ TECHNIQUE = "static analysis: clause-template extraction from the AST, decision-
 LEVEL_TEXT = EXPLANATION
 
 
-def _body_form(arg, loopvar):
+def _body_form(arg, loopvar, nodev="node"):
     s = norm(arg)
-    if s in ("node.children", "list(node.children)"):
+    ch = "%s.children" % nodev
+    if s in (ch, "list(%s)" % ch, "tuple(%s)" % ch):
         return "all-pos"
-    if s.startswith("list(map(lambda x: -x, node.children))") or s.startswith("map(lambda x: -x, node.children)") or s in ("[-x for x in node.children]", "[-c for c in node.children]"):
-        return "all-neg"
+    # list(map(lambda x: -x, children)) / [-x for x in children]
+    a = arg
+    if isinstance(a, ast.Call) and dotted(a.func) in ("list", "tuple") and len(a.args) == 1:
+        a = a.args[0]
+    if isinstance(a, ast.Call) and dotted(a.func) == "map" and len(a.args) == 2 and norm(a.args[1]) == ch and isinstance(a.args[0], ast.Lambda):
+        lam = a.args[0]
+        if len(lam.args.args) == 1 and norm(lam.body) == "-%s" % lam.args.args[0].arg:
+            return "all-neg"
+    if isinstance(a, (ast.ListComp, ast.GeneratorExp)) and len(a.generators) == 1 and norm(a.generators[0].iter) == ch and not a.generators[0].ifs \
+            and isinstance(a.generators[0].target, ast.Name):
+        v = a.generators[0].target.id
+        if norm(a.elt) == "-%s" % v:
+            return "all-neg"
+        if norm(a.elt) == v:
+            return "all-pos"
     if loopvar is not None and s == "[%s]" % loopvar:
         return "each-pos"
     if loopvar is not None and s == "[-%s]" % loopvar:
@@ -55,47 +69,57 @@ def rule_k1_k2(repo, col):
     if main is None:
         raise AnalysisError("clarks_completion: loop over the source nodes not found")
     ix, nodev, ntype = [e.id for e in main.target.elts]
-    chain = [s for s in main.body if isinstance(s, ast.If)]
-    if len(chain) != 1:
-        raise AnalysisError("clarks_completion: node-type chain not found")
+    paths = dtable.extract_block(main.body, opaque_loops=True)
     table = {}
-    cur = chain[0]
     default_raises = False
-    while True:
-        t = cur.test
-        if not (isinstance(t, ast.Compare) and norm(t.left) == ntype and isinstance(t.comparators[0], ast.Constant)):
-            raise AnalysisError("clarks_completion: test not understood: %s" % norm(t))
-        kind = t.comparators[0].value
+    kinds_seen = set()
+    for p in paths:
+        kind = None
+        all_false = True
+        for s_, t, _ in p.conds:
+            mm = None
+            if s_.startswith("%s == " % ntype):
+                lit = s_[len("%s == " % ntype):]
+                try:
+                    val = ast.literal_eval(lit)
+                except Exception:
+                    continue
+                kinds_seen.add(val)
+                if t:
+                    kind = val
+                    all_false = False
+        if kind is None:
+            if p.end == "raise":
+                default_raises = True
+            continue
         rows = set()
 
         def collect(stmts, loopvar):
             for st in stmts:
-                if isinstance(st, ast.For) and norm(st.iter) in ("node.children", "%s.children" % nodev) and isinstance(st.target, ast.Name):
+                if isinstance(st, ast.For) and norm(st.iter) == "%s.children" % nodev and isinstance(st.target, ast.Name):
                     collect(st.body, st.target.id)
                 elif isinstance(st, ast.Expr) and isinstance(st.value, ast.Call) and dotted(st.value.func) == "%s.add_clause" % dst and len(st.value.args) == 2:
-                    rows.add((_head_sign(st.value.args[0], ix), _body_form(st.value.args[1], loopvar)))
-                elif isinstance(st, ast.Pass):
+                    rows.add((_head_sign(st.value.args[0], ix), _body_form(st.value.args[1], loopvar, nodev)))
+                elif isinstance(st, (ast.Pass, ast.If, ast.Continue)):
                     pass
                 else:
                     rows.add(("?", norm(st)[:50]))
 
-        collect(cur.body, None)
-        table[kind] = (rows, cur)
-        if len(cur.orelse) == 1 and isinstance(cur.orelse[0], ast.If):
-            cur = cur.orelse[0]
-            continue
-        default_raises = any(isinstance(s, ast.Raise) for s in cur.orelse)
-        break
+        collect([st for st in p.stmts if not isinstance(st, ast.If)], None)
+        # statements nested in a for loop are collected through the loop statement itself
+        table.setdefault(kind, (set(), p.stmts[0]))[0].update(rows)
+    if not table:
+        raise AnalysisError("clarks_completion: node-type dispatch not found")
     want = {"conj": {("+i", "all-neg"), ("-i", "each-pos")}, "disj": {("-i", "all-pos"), ("+i", "each-neg")}, "atom": set()}
     for kind, exp in want.items():
         if kind not in table:
             col.fail("K1", m, main, "clarks_completion has no branch for node type %r" % kind, construct="completion of %s" % kind, function="clarks_completion")
             continue
         got, node = table[kind]
-        col.decide("K1", m, node.test, got == exp, "completion of %s: %s" % (kind, sorted(exp)),
+        col.decide("K1", m, node, got == exp, "completion of %s: %s" % (kind, sorted(exp)),
                    "Clark's completion of a %s node must emit %s, found %s: the CNF is no longer equivalent to the definition (head <-> body)" % (kind, sorted(exp), sorted(got)),
                    construct="completion of %s" % kind, function="clarks_completion")
-    col.decide("K1", m, chain[0], default_raises, "unknown node types raise", "an unknown node type must raise", construct="completion default", function="clarks_completion")
+    col.decide("K1", m, main, default_raises, "unknown node types raise", "an unknown node type must raise", construct="completion default", function="clarks_completion")
     ac = repo.func("problog.cnf_formula", "CNF.add_clause")
     st = [norm(s) for s in ac.node.body if not (isinstance(s, ast.Expr) and isinstance(s.value, ast.Constant))]
     col.decide("K1", m, ac.node, "self._clauses.append([head] + list(body))" in st and "self._clausecount += 1" in st, "add_clause stores [head] + body",
@@ -108,8 +132,17 @@ def rule_k1_k2(repo, col):
     col.decide("K2", m, f.node, okc, "constraints copied", "clarks_completion must copy every constraint of the source", construct="clarks_completion: constraints", function="clarks_completion")
     okn = any(isinstance(n, ast.For) and "get_names_with_label" in norm(n.iter) and any("%s.add_name(" % dst in norm(s) for s in n.body) for n in walk_no_nested(f.node))
     col.decide("K2", m, f.node, okn, "names copied", "clarks_completion must copy every labelled name (queries, evidence)", construct="clarks_completion: names", function="clarks_completion")
-    oka = any(isinstance(n, ast.For) and "range(0, num_atoms)" in norm(n.iter) and any("%s.add_atom(i + 1" % dst in norm(s) for s in n.body) for n in walk_no_nested(f.node)) \
-        and "num_atoms = len(%s)" % src in body
+    oka = False
+    for n in walk_no_nested(f.node):
+        if isinstance(n, ast.For) and isinstance(n.target, ast.Name) and isinstance(n.iter, ast.Call) and dotted(n.iter.func) == "range":
+            v = n.target.id
+            rng = [norm(a) for a in n.iter.args]
+            adds = [x for x in ast.walk(n) if isinstance(x, ast.Call) and dotted(x.func) == "%s.add_atom" % dst and x.args]
+            if not adds:
+                continue
+            first = norm(adds[0].args[0])
+            if (rng in (["0", "num_atoms"], ["num_atoms"]) and first == "%s + 1" % v) or (rng == ["1", "num_atoms + 1"] and first == v):
+                oka = "num_atoms = len(%s)" % src in body
     col.decide("K2", m, f.node, oka, "one CNF variable per source node", "clarks_completion must add one CNF atom per source node (1..len(source))",
                construct="clarks_completion: atoms", function="clarks_completion")
     # constraint clauses are appended by CNF.add_constraint
@@ -230,22 +263,33 @@ def rule_k4_k5(repo, col):
         raise AnalysisError("ConstraintAD.as_clauses missing")
     src = norm(f.node)
     ok_nodes = "nodes = list(self.nodes) + [self.extra_node]" in src
-    outer = [n for n in walk_no_nested(f.node) if isinstance(n, ast.For) and norm(n.iter) == "enumerate(nodes)"]
-    okp = False
-    if outer:
-        i, nv = [e.id for e in outer[0].target.elts]
-        inner = [n for n in outer[0].body if isinstance(n, ast.For)]
-        if inner and norm(inner[0].iter) == "nodes[%s + 1:]" % i and isinstance(inner[0].target, ast.Name):
-            mv = inner[0].target.id
-            okp = any(norm(s) in ("lines.append((-%s, -%s))" % (nv, mv), "lines.append((-%s, -%s))" % (mv, nv)) for s in inner[0].body)
+    okp = None  # None = shape not recognised
+    gens = []
+    for n in ast.walk(f.node):
+        if isinstance(n, ast.For) and norm(n.iter) == "enumerate(nodes)" and isinstance(n.target, ast.Tuple):
+            inner = [x for x in n.body if isinstance(x, ast.For)]
+            if inner and isinstance(inner[0].target, ast.Name):
+                elt = [x.value.args[0] for x in inner[0].body if isinstance(x, ast.Expr) and isinstance(x.value, ast.Call) and norm(x.value.func) == "lines.append" and x.value.args]
+                if elt:
+                    gens.append(([e.id for e in n.target.elts], norm(inner[0].iter), inner[0].target.id, norm(elt[0])))
+        if isinstance(n, (ast.ListComp, ast.GeneratorExp)) and len(n.generators) == 2 and norm(n.generators[0].iter) == "enumerate(nodes)" \
+                and isinstance(n.generators[0].target, ast.Tuple) and isinstance(n.generators[1].target, ast.Name) and not n.generators[0].ifs and not n.generators[1].ifs:
+            gens.append(([e.id for e in n.generators[0].target.elts], norm(n.generators[1].iter), n.generators[1].target.id, norm(n.elt)))
+    if len(gens) == 1:
+        (iv, nv), inner_iter, mv, elt = gens[0]
+        okp = inner_iter == "nodes[%s + 1:]" % iv and elt in ("(-%s, -%s)" % (nv, mv), "(-%s, -%s)" % (mv, nv))
+    if okp is None:
+        raise AnalysisError("ConstraintAD.as_clauses: pairwise loop not recognised")
     col.decide("K4", m, f.node, ok_nodes and okp, "mutual exclusion: one clause (-n, -m) per unordered pair of nodes + [extra_node]",
                "as_clauses must emit (-n, -m) for every unordered pair of list(self.nodes) + [self.extra_node] (inner loop over nodes[i + 1:]): otherwise two heads of one "
                "annotated disjunction can be true together, or a head excludes itself", construct="def as_clauses: pairwise exclusion", function="ConstraintAD.as_clauses")
-    n_all = len([s for s in walk_no_nested(f.node) if isinstance(s, ast.Expr) and norm(s) == "lines.append(nodes)"])
+    n_all = len([s for s in walk_no_nested(f.node) if isinstance(s, ast.Expr) and norm(s) == "lines.append(nodes)"]) + \
+        len([s for s in walk_no_nested(f.node) if isinstance(s, ast.Return) and s.value is not None and norm(s.value).endswith("+ [nodes]")])
     col.decide("K4", m, f.node, n_all == 1, "exactly one clause with all members positive (pick one)", "as_clauses must emit exactly one clause containing all members positively",
                construct="def as_clauses: pick-one clause", function="ConstraintAD.as_clauses")
-    guard = [n for n in f.node.body if isinstance(n, ast.If)]
-    okg = len(guard) == 1 and norm(guard[0].test) == "self.is_nontrivial()" and any(isinstance(s, ast.Return) and norm(s.value) == "[]" for s in guard[0].orelse)
+    ps = dtable.extract(f.node, opaque_loops=True)
+    triv = [p for p in ps if any(s_ == "self.is_nontrivial()" and not t for s_, t, _ in p.conds)]
+    okg = bool(triv) and all(p.end == "return" and p.value == "[]" for p in triv) and any(any(s_ == "self.is_nontrivial()" and t for s_, t, _ in p.conds) for p in ps)
     col.decide("K4", m, f.node, okg, "trivial constraints contribute no clause", "a trivial constraint must return []", construct="def as_clauses: trivial", function="ConstraintAD.as_clauses")
     for cname in ("ClauseConstraint", "TrueConstraint"):
         cc = repo.cls("problog.constraint", cname)
@@ -261,7 +305,22 @@ def rule_k4_k5(repo, col):
     sem = uw.params[2]
     wts = uw.params[1]
     m1 = pat.find("%s[V_n] = (V_pos, %s.ad_negate(V_pos, V_neg))" % (wts, sem), uw.node)
-    m2 = pat.find("%s[self.extra_node] = (V_c, %s.ad_negate(V_c, %s.one()))" % (wts, sem, sem), uw.node)
+    # single-assignment temporaries are read through (a behaviour-preserving `extra_neg = ...` must not matter)
+    assigned = {}
+    for st in ast.walk(uw.node):
+        if isinstance(st, ast.Assign) and len(st.targets) == 1 and isinstance(st.targets[0], ast.Name):
+            assigned.setdefault(st.targets[0].id, []).append(st.value)
+
+    def thru(e):
+        if isinstance(e, ast.Name) and len(assigned.get(e.id, ())) == 1:
+            return assigned[e.id][0]
+        return e
+
+    m2 = []
+    for _n, b in pat.find("%s[self.extra_node] = (E_c, E_n)" % wts, uw.node):
+        cexp, nexp = _n.value.elts[0], thru(_n.value.elts[1])
+        if isinstance(cexp, ast.Name) and pat.match(pat.parse_expr("%s.ad_negate(%s, %s.one())" % (sem, cexp.id, sem)), nexp) is not None:
+            m2.append((_n, {"V_c": cexp.id}))
     ok5 = False
     if len(m1) == 1 and len(m2) == 1:
         posv = m1[0][1]["V_pos"]
